@@ -32,7 +32,8 @@ Program representation -- one generic immutable node type
     ('dim', a) ('size', a, d) ('sum', a) ('amin', a) ('amax', a) ('min', [es]) ('max', [es])
     ('any', a) ('all', a)
     ('call', fname, [args])               ECall
-    ('ctor', kind, rm, ov, [args])        ECtor              kind in CTORS (e.g. 'MPFloat'), rm 'RNE'.., ov 'OVERFLOW'..|None
+    ('ctor', kind, rm, ov, [args])        ECtor              kind in CTORS ('MPFloat','MPSFloat','IEEE','MPFixed','FixedS','FixedU','SMFixed'),
+                                                             rm 'RNE'.., ov 'OVERFLOW'..|None
   patterns
     ('pvar', name) ('pwild',) ('ptuple', [pats])
   statements
@@ -51,7 +52,11 @@ Contexts
 --------
     CtxSpec(kind, **params)               e.g. CtxSpec('MPFloat', p=5, rm='RTZ'), CtxSpec('REAL'),
                                           CtxSpec('MPSFloat', p=4, emin=-3, rm='RNE'),
-                                          CtxSpec('IEEE', es=4, nbits=9, rm='RNE', ov='OVERFLOW')
+                                          CtxSpec('IEEE', es=4, nbits=9, rm='RNE', ov='OVERFLOW'),
+                                          CtxSpec('EFloat', es=3, nbits=6, enable_inf=False, nk='MAX_VAL', eoffset=0, rm=.., ov=..),
+                                          CtxSpec('MPBFloat', p=3, emin=-2, mexp=1, mc=7, rm=.., ov=..)  (maxval = mc * 2^mexp),
+                                          CtxSpec('MPFixed', nmin=-3, rm=..), CtxSpec('Fixed', signed=True, scale=-1, nbits=5, rm=.., ov='WRAP'),
+                                          CtxSpec('SMFixed', scale=0, nbits=4, rm=.., ov='SATURATE')
       .py()      Python expression text   .coq()    Coq `ctx` term      .obj(fp)  the fpy2 Context object
     ctx_to_coq(fpy2_context)              any supported fpy2 Context object -> Coq `ctx` term (fail-closed)
 
@@ -236,7 +241,12 @@ CTORS = {  # kind -> (fpy2 class name, Coq ctor tag builder, number of numeric a
     'MPSFloat': ('MPSFloatContext', lambda rm, ov: f'(KMPSFloat {rm})', 2),
     'IEEE': ('IEEEContext', lambda rm, ov: f'(KIEEE {rm} OV_{ov or "OVERFLOW"})', 2),
     'MPFixed': ('MPFixedContext', lambda rm, ov: f'(KMPFixed {rm})', 1),
+    # FixedContext(signed, scale, nbits, rm, overflow): the bool is part of the kind
+    'FixedS': ('FixedContext', lambda rm, ov: f'(KFixed true {rm} OV_{ov or "WRAP"})', 2),
+    'FixedU': ('FixedContext', lambda rm, ov: f'(KFixed false {rm} OV_{ov or "WRAP"})', 2),
+    'SMFixed': ('SMFixedContext', lambda rm, ov: f'(KSMFixed {rm} OV_{ov or "WRAP"})', 2),
 }
+CTOR_PREFIX = {'FixedS': ['True'], 'FixedU': ['False']}
 
 
 class CtxSpec:
@@ -260,6 +270,18 @@ class CtxSpec:
             return f'fp.MPSFloatContext({k["p"]}, {k["emin"]}, fp.RM.{k.get("rm", "RNE")})'
         if self.kind == 'IEEE':
             return f'fp.IEEEContext({k["es"]}, {k["nbits"]}, fp.RM.{k.get("rm", "RNE")}, fp.OV.{k.get("ov", "OVERFLOW")})'
+        rm, ov = f'fp.RM.{k.get("rm", "RNE")}', f'fp.OV.{k.get("ov", "OVERFLOW")}'
+        if self.kind == 'EFloat':
+            return (f'fp.EFloatContext({k["es"]}, {k["nbits"]}, {bool(k["enable_inf"])}, fp.EFloatNanKind.{k["nk"]}, '
+                    f'{k.get("eoffset", 0)}, {rm}, {ov})')
+        if self.kind == 'MPBFloat':
+            return f'fp.MPBFloatContext({k["p"]}, {k["emin"]}, fp.RealFloat(False, {k["mexp"]}, {k["mc"]}), {rm}, {ov})'
+        if self.kind == 'MPFixed':
+            return f'fp.MPFixedContext({k["nmin"]}, {rm})'
+        if self.kind == 'Fixed':
+            return f'fp.FixedContext({bool(k["signed"])}, {k["scale"]}, {k["nbits"]}, {rm}, {ov})'
+        if self.kind == 'SMFixed':
+            return f'fp.SMFixedContext({k["scale"]}, {k["nbits"]}, {rm}, {ov})'
         raise Unsupported(f'CtxSpec kind {self.kind}')
 
     def coq(self):
@@ -274,6 +296,8 @@ class CtxSpec:
             return f'(CMPSFloat {cz(k["p"])} {cz(k["emin"])} {k.get("rm", "RNE")} (Some 0%Z) sp_default)'
         if self.kind == 'IEEE':
             return f'(CIEEE {cz(k["es"])} {cz(k["nbits"])} {k.get("rm", "RNE")} OV_{k.get("ov", "OVERFLOW")})'
+        if self.kind in ('EFloat', 'MPBFloat', 'MPFixed', 'Fixed', 'SMFixed'):
+            return ctx_to_coq(self.obj())      # one printer for these families: the fpy2 object's own parameters
         raise Unsupported(f'CtxSpec kind {self.kind}')
 
     def obj(self):
@@ -328,6 +352,14 @@ def ctx_to_coq(c) -> str:
     if tn == 'FixedContext':
         return (f'(CFixed {cb(c.signed)} {cz(c.scale)} {cz(c.nbits)} {rm} OV_{ov} {_optz(c.num_randbits)} '
                 f'{_optfl(getattr(c, "nan_value", None))} {_optfl(getattr(c, "inf_value", None))})')
+    if tn == 'SMFixedContext':
+        return (f'(CSMFixed {cz(c.scale)} {cz(c.nbits)} {rm} OV_{ov} {_optz(c.num_randbits)} '
+                f'{_optfl(getattr(c, "nan_value", None))} {_optfl(getattr(c, "inf_value", None))})')
+    if tn == 'MPBFixedContext':
+        return (f'(CMPBFixed {cz(c.nmin)} {_rf(c.pos_maxval)} {_rf(c.neg_maxval)} {rm} OV_{ov} {_optz(c.num_randbits)} '
+                f'{sp()} {cb(getattr(c, "enable_neg_zero", True))})')
+    if tn == 'ExpContext':
+        return f'(CExp {cz(c.nbits)} {cz(c.eoffset)} {rm} OV_{ov} {_optfl(getattr(c, "inf_value", None))})'
     raise Unsupported(f'context {tn}')
 
 
@@ -558,7 +590,7 @@ def src(n) -> str:
     if k == 'ctor':
         kind, rm, ov, args = a
         extra = [f'fp.RM.{rm}'] + ([f'fp.OV.{ov}'] if ov else [])
-        return f'fp.{CTORS[kind][0]}(' + ', '.join([src(x) for x in args] + extra) + ')'
+        return f'fp.{CTORS[kind][0]}(' + ', '.join(CTOR_PREFIX.get(kind, []) + [src(x) for x in args] + extra) + ')'
     if k == 'pvar':
         return a[0]
     if k == 'pwild':
@@ -879,11 +911,17 @@ class _Exporter:
                 return Node('call', name, [X(a) for a in e.args])
             if isinstance(fn, type) and fn.__name__ in _CTOR_CLASSES:
                 kind = _CTOR_CLASSES[fn.__name__]
+                cargs = list(e.args)
+                if fn.__name__ == 'FixedContext':
+                    if not cargs or type(cargs[0]).__name__ != 'BoolVal':
+                        raise Unsupported('FixedContext: `signed` must be a boolean literal')
+                    kind = 'FixedS' if cargs[0].val else 'FixedU'
+                    cargs = cargs[1:]
                 nnum = CTORS[kind][2]
-                if e.kwargs or len(e.args) < nnum:
+                if e.kwargs or len(cargs) < nnum:
                     raise Unsupported(f'context constructor call shape: {fn.__name__}')
                 rm, ov = 'RNE', None
-                for extra in e.args[nnum:]:
+                for extra in cargs[nnum:]:
                     v = self._resolve(extra)
                     if type(v).__name__ == 'RoundingMode':
                         rm = v.name
@@ -891,7 +929,7 @@ class _Exporter:
                         ov = v.name
                     else:
                         raise Unsupported(f'context constructor argument {v!r}')
-                return Node('ctor', kind, rm, ov, [X(a) for a in e.args[:nnum]])
+                return Node('ctor', kind, rm, ov, [X(a) for a in cargs[:nnum]])
             raise Unsupported(f'call of {fn!r}')
         raise Unsupported(f'expression node {tn}')
 
